@@ -33,6 +33,7 @@ class Executor(ExprMixin, ContainerMixin, CallMixin, StmtMixin, ObjectMixin):
         self.contract = contract
         self.family = family
         self.obligations: list[Obligation] = []
+        self.assumed_external: set = set()
         self.loop_counter = 0
         self.variant = ""
         self.cur_site = ""
